@@ -185,7 +185,8 @@ Definition W_ex : wsdl :=
     [(s_t, s_urn)]
     [(s_urn, 1%N)]
     [(s_T, 10%N); (s_next, 11%N); (s_c, 12%N); (s_Color, 13%N); (s_red, 14%N); (s_v, 15%N);
-     (s_B, 16%N); (s_after, 17%N); (s_a1, 18%N); (s_value, 4%N)].
+     (s_B, 16%N); (s_after, 17%N); (s_a1, 18%N); (s_value, 4%N)]
+    [] [].
 
 Definition prop_none : pv := PObj 13 [((4%N, false), PNone)].
 
@@ -256,7 +257,7 @@ Definition W_ex2 : wsdl :=
          [PC KSeq false [PE (mkE 15 1 true TBuiltin false false false None);
                          PE (mkE 11 1 true (TNamed 1 10) false false false None)]]
          [mkA 18 false (Some 20%N)]]
-    [(1%N, 13%N, [14%N])] [] s_urn [(s_t, s_urn)] [(s_urn, 1%N)] (w_names W_ex).
+    [(1%N, 13%N, [14%N])] [] s_urn [(s_t, s_urn)] [(s_urn, 1%N)] (w_names W_ex) [] [].
 
 Example strict_partial_nonvacuous :
   wf_names W_ex2 = true /\ wf_refs W_ex2 = true /\ no_enum_members W_ex2 = true /\
